@@ -35,6 +35,28 @@ func propC02(a *Analysis, r *Registry) {
 	A := func(j string) string {
 		return "makeUmemo(" + j + ", d.N1, d.T)[len(d.T)][ukey(d.N1, " + j + ")]"
 	}
+	// the integer helpers the formulas above are written with (the specs call them too, so they
+	// must be pinned on their own: a `maxint` that returned the minimum would change code and
+	// spec together)
+	for _, h := range [][2]string{{"stats.maxint", "ite(a<b, b, a)"}, {"stats.minint", "ite(a<b, a, b)"}} {
+		b.Formula(rB, h[0], h[0], []string{"a", "b"}, nil, 0, h[1], nil)
+	}
+	if fn := b.Fn(rB, "stats.sumint"); fn != nil {
+		b.guard(rB, "stats.sumint", func() {
+			fc := X.FCFor(fn)
+			env := X.EnvFor(fn, "xs")
+			rv := fc.RetVal(0)
+			x, xi := fc.elemOf(rv, env.MustParse("xs"))
+			if x == nil {
+				anchorFail("sumint does not read the elements of xs")
+			}
+			env.Set("x", x, nil)
+			if vars := b.LoopSystem(rB, "stats.sumint/recurrence", b.pos(fn), fc, rv, env, []recSpec{{"sum", "0", "sum+x"}}); vars != nil {
+				b.EqRF(rB, "stats.sumint/result", b.pos(fn), rv, vars["sum"], "returns the accumulated sum")
+				b.FullScan("C-scan coverage", "stats.sumint/every-element", b.pos(fn), fc, xi, env.MustParse("len(xs)"))
+			}
+		})
+	}
 	// the tied branches panic only when the memo table lacks the entry asked for (an internal
 	// assertion): with every lookup succeeding no panic is reachable
 	for _, mn := range []string{"PMF", "CDF"} {
